@@ -34,13 +34,50 @@ def attr_call(name: str) -> Callable[[ast.Call], bool]:
     return lambda c: isinstance(c.func, ast.Attribute) and c.func.attr == name
 
 
+def _opaque_cm(cfg: CFG, wstmt) -> Optional[str]:
+    """Name of a program-defined context manager (a class with __exit__, or a @contextmanager function that was
+    not inlined) entered by with-statement *wstmt*: its exit code may translate or swallow exceptions."""
+    P = getattr(getattr(cfg, "inliner", None), "P", None)
+    if P is None:
+        return None
+    for it in getattr(wstmt, "items", []):
+        c = it.context_expr
+        if not isinstance(c, ast.Call):
+            continue
+        d = dotted(c.func)
+        if not d:
+            continue
+        try:
+            kind, obj = P.resolve_dotted(cfg.fi.module, d, getattr(cfg.fi, "inherited_from", None) or cfg.fi)
+        except Exception:
+            continue
+        if kind == "class" and P.lookup_method(obj, "__exit__") is not None and obj.qualname != "xandikos.store.git.locked_index":
+            return obj.qualname
+        if kind == "func" and {"contextmanager", "contextlib.contextmanager"} & set(obj.decorators) and obj.qualname != "xandikos.store.git.locked_index":
+            return obj.qualname
+    return None
+
+
 def handler_catching(cfg: CFG, n: Node, exc: str) -> Optional[HandlerInfo]:
-    """The handler that certainly catches *exc* raised at *n* (innermost first)."""
+    """The handler that certainly catches *exc* raised at *n* (innermost first).
+
+    If no handler is found but the node sits inside a program-defined context manager whose exit code the
+    analyser could not put in line, the answer is unknown: AnalysisError (exit 2), not 'uncaught'."""
+    from ..cfg import WithCtx
+    opaque = None
     for c in reversed(n.ctx):
         if isinstance(c, TryCtx):
             for h in c.handlers:
                 if cfg.hier.match(exc, h.types) == "yes":
+                    if opaque:
+                        raise AnalysisError("%s: %s raised inside `with %s(...)` - what its __exit__ does with the exception is not modelled"
+                                            % (cfg.fi.qualname, exc, opaque))
                     return h
+        elif isinstance(c, WithCtx) and opaque is None:
+            opaque = _opaque_cm(cfg, c.stmt)
+    if opaque:
+        raise AnalysisError("%s: %s raised inside `with %s(...)` - what its __exit__ does with the exception is not modelled"
+                            % (cfg.fi.qualname, exc, opaque))
     return None
 
 
